@@ -7,6 +7,7 @@ git checkout -q -- . ; git clean -qfd -e out
 mod=grpcgcp; dir=grpcgcp; flags=""
 case $p/$n in
  C10/2) dir=grpcgcp/multiendpoint; flags=-race;;
+ C13/*|C14/*) dir=grpcgcp/multiendpoint;;
  C10/*|C09/1) flags=-race;;
  C18/3) mod=spanner_prober; dir=spanner_prober;;
  C18/*) mod=spanner_prober; dir=spanner_prober/prober;;
@@ -14,7 +15,7 @@ case $p/$n in
 esac
 cp $out/zz_demo*_test.go $wt/$dir/ 2>/dev/null || cp $out/*_test.go $wt/$dir/
 pkg=./${dir#$mod}; pkg=${pkg%/}; [ "$pkg" = "." ] || pkg=./${dir#$mod/}; [ "$dir" = "$mod" ] && pkg=.
-runx='Demo'
+runx='Demo|TestZZ'
 echo "== $p/$n demo on unmodified tree ($dir $flags)"
 (cd $mod && timeout 600 go test $flags -vet=off -count=1 -timeout 300s -run "$runx" $pkg 2>&1 | tail -3)
 git apply $out/patch.diff || { echo "PATCH DOES NOT APPLY"; exit 3; }
